@@ -114,7 +114,7 @@ def names_of(mol):
     return [(a.name, a.resname) for a in mol]
 
 
-def one_alignment(start, end, eS, eE, kw, factor, seed, observe=True, reassign=''):
+def one_alignment(start, end, eS, eE, kw, factor, seed, observe=True, reassign='', via_manager=None):
     """run a real alignment; -> (events, final positions digest)"""
     import gaddlemaps._alignment as A
     import gaddlemaps._backend as B
@@ -124,7 +124,16 @@ def one_alignment(start, end, eS, eE, kw, factor, seed, observe=True, reassign='
     nS, nE = len(start), len(end)
     nm0 = (names_of(start), names_of(end))
     ev = []
-    ali = Alignment(start, end)
+    man = None
+    if via_manager:
+        # the other public entry point: the species' Alignment of a Manager, options given per molecule name
+        from gaddlemaps import Manager
+        from gaddlemaps.components import System
+        man = Manager(System(*via_manager))
+        ali = man.molecule_correspondence[start.name]
+        ali.end = end
+    else:
+        ali = Alignment(start, end)
     ali.STEPS_FACTOR = factor
     # the documented way to update a molecule of an existing Alignment: assign it again
     if 's' in reassign:
@@ -173,7 +182,13 @@ def one_alignment(start, end, eS, eE, kw, factor, seed, observe=True, reassign='
     np.random.seed(seed)
     try:
         with contextlib.redirect_stdout(io.StringIO()):
-            ali.align_molecules(**kw)
+            if man is not None:
+                nm = start.name
+                man.align_molecules(restrictions={nm: list(kw['restrictions'] or [])},
+                                    deformation_types=None if kw['deformation_types'] is None else {nm: kw['deformation_types']},
+                                    ignore_hydrogens={nm: kw['ignore_hydrogens']}, parse_restrictions=False)
+            else:
+                ali.align_molecules(**kw)
     finally:
         A.minimize_molecules = real_min
     fS, fE = ali.start.atoms_positions.copy(), ali.end.atoms_positions.copy()
@@ -235,8 +250,13 @@ def run_case(tid, seed, cfgcls, workdir, thorough):
             sp.atoms_positions = start.atoms_positions * 1.37
             ep.atoms_positions = end.atoms_positions * 0.81
             one_alignment(sp, ep, eS, eE, kw, 1, (seed + 1) % (2 ** 32), observe=False)
-        ev, dig = one_alignment(start, end, eS, eE, kw, factor, seed % (2 ** 32), reassign=reassign)
-        _ev2, dig2 = one_alignment(start, end, eS, eE, kw, factor, seed % (2 ** 32), observe=False, reassign=reassign)
+        via = None
+        if reassign == '' and rng.random() < 0.3:
+            d_ = os.path.join(workdir, 't%d' % tid)
+            via = (os.path.join(d_, start.name + '.gro'), os.path.join(d_, start.name + '.itp'))
+        meta['via_manager'] = bool(via)
+        ev, dig = one_alignment(start, end, eS, eE, kw, factor, seed % (2 ** 32), reassign=reassign, via_manager=via)
+        _ev2, dig2 = one_alignment(start, end, eS, eE, kw, factor, seed % (2 ** 32), observe=False, reassign=reassign, via_manager=via)
         ev.append({'op': 'Repeat', 'same': bool(dig == dig2)})
     except ScheduleExhausted:
         return None
